@@ -76,6 +76,18 @@ def closure_axioms(formulas):
 
 
 _READS_CACHE = {}
+_POP_CACHE = {}
+
+
+def _pop_terms(f):
+    k = f.get_id()
+    hit = _POP_CACHE.get(k)
+    if hit is None:
+        hit = (f, [e for e in smt.subterms([f]) if z3.is_app(e) and e.decl().name() in ("list_pop_ok", "list_pop_item", "list_pop_rest")])
+        _POP_CACHE[k] = hit
+    return hit[1]
+
+
 _POS_CACHE = {}
 _NORM_CACHE = {}
 
@@ -207,6 +219,29 @@ def global_row_axioms(formulas):
                 if z3.is_app(Y) and Y.decl().name() == "put_in":
                     x, n2, y = Y.children()
                     ax.append(z3.Implies(n == n2, bs.sub_of(Y, n) == y))
+    # list pop() of the last element undoes append, through equations between container states
+    for f in formulas:
+        if not z3.is_expr(f):
+            continue
+        for e in _pop_terms(f):
+            c, j = e.children()
+            if not (z3.is_app(j) and j.decl().name() == "VInt" and z3.is_int_value(j.children()[0])
+                    and j.children()[0].as_long() == -1):
+                continue
+            cn = _norm_select(c)
+            for A in [c, cn] + alias.get(c.get_id(), []) + alias.get(cn.get_id(), []):
+                An = _norm_select(A)
+                for A2 in (A, An):
+                    if z3.is_app(A2) and A2.decl().name() == "list_append":
+                        c0, x = A2.children()
+                        ax.append(bs.list_pop_ok(A2, j))
+                        ax.append(bs.list_pop_item(A2, j) == x)
+                        ax.append(bs.list_pop_rest(A2, j) == c0)
+                        if not A2.eq(c):
+                            ax.append(z3.Implies(A2 == c, z3.And(bs.list_pop_ok(c, j), bs.list_pop_item(c, j) == x,
+                                                                 bs.list_pop_rest(c, j) == c0)))
+                        if not An.eq(A):
+                            ax.append(A == An)
     done = set()
     work = list(reads)
     steps = 0
@@ -300,6 +335,11 @@ def _axioms_of(f):
                 ax.append(z3.And(z3.Not(smt.is_VNone(e)), z3.Not(smt.is_VAbsent(e)), z3.Not(smt.is_VRef(e)),
                                  z3.Not(smt.is_VBool(e)), z3.Not(smt.is_VInt(e)), z3.Not(smt.is_VStr(e)),
                                  z3.Not(smt.is_VFloat(e))))
+        elif nm == "truthy":
+            t = args[0]
+            ax.append(z3.Implies(smt.is_VBool(t), e == Val.b(t)))
+            ax.append(z3.Implies(smt.is_VNone(t), z3.Not(e)))
+            ax.append(z3.Implies(smt.is_VInt(t), e == (Val.i(t) != 0)))
         elif nm == "tyof":
             need_ground = True
             t = args[0]
@@ -352,6 +392,17 @@ def list_axioms(f):
                 ax.append(bs.list_len(c.children()[0]) >= 0)
             if z3.is_app(c) and c.decl().name() == "list_empty":
                 ax.append(e == 0)
+        if nm in ("list_pop_item", "list_pop_rest"):
+            c, j = e.children()
+            # pop() of the last element undoes append  [SPEC-BUILTIN]
+            if z3.is_app(c) and c.decl().name() == "list_append" and z3.is_app(j) and j.decl().name() == "VInt" \
+                    and z3.is_int_value(j.children()[0]) and j.children()[0].as_long() == -1:
+                c0, x = c.children()
+                ax.append(e == (x if nm == "list_pop_item" else c0))
+        if nm == "list_pop_ok":
+            c, j = e.children()
+            if z3.is_app(c) and c.decl().name() == "list_append":
+                ax.append(e)
         if nm == "list_get":
             c, j = e.children()
             if z3.is_app(c) and c.decl().name() == "list_append" and z3.is_app(j) and j.decl().name() == "VInt":
